@@ -1,6 +1,6 @@
 (* C13 — Every true supported inequality is provable (prover-side statement logic, splitters). *)
 From Coq Require Import ZArith List.
-From Gabi Require Import ModArith GoSem ParamsDef Keys RangeProof RangeSound.
+From Gabi Require Import ModArith GoSem ParamsDef ZkProof Keys RangeProof RangeSound RangeComplete.
 Import ListNotations.
 Open Scope Z_scope.
 
@@ -35,3 +35,18 @@ Proof. exact table_split_sound_lem. Qed.
 Theorem table_split_complete_1024 :
   forall delta, 0 <= delta <= 4 * 1024 + 2 -> delta mod 4 = 2 -> exists ds, table_split 1024 delta = Ok ds.
 Proof. exact table_split_complete_1024_lem. Qed.
+
+(* Completeness of the range proof itself: for a true statement whose difference the splitter wrote as a sum of
+   squares, what CommitmentsFromSecrets hashes is exactly what the verifier reconstructs from the responses to any
+   challenge, for every key whose bases S and R_index are units (exponents of either sign, all sizes). *)
+Theorem range_proof_complete :
+  forall pk, 1 < pk_N pk ->
+  forall s m mr ds drs vs vrs v5r ch l cm r,
+  0 <= ch -> 0 <= rs_a s <= max_int64 -> (rs_sign s = 1 \/ rs_sign s = -1) ->
+  pk_base pk (BR (rs_index s)) = Some r -> is_unit pk r -> is_unit pk (pk_S pk) ->
+  length ds = length drs -> length vs = length vrs -> length ds = length vs ->
+  Forall (fun d => 0 <= d) ds -> Forall (fun v => 0 <= v) vs ->
+  sumsq ds = delta s m ->
+  commitments_from_secrets pk s m mr ds drs vs vrs v5r = Ok (l, cm) ->
+  commitments_from_proof pk s (build_proof s cm ch) ch = Ok l.
+Proof. exact range_honest_complete_lem. Qed.
